@@ -816,6 +816,28 @@ def purity_walks_reach_every_component(F, rep, rule="PURITY-COPY"):
     if not with_parts:
         rep.anchor_missing("the constructors TypeChecker::parts gives components for")
         return
+
+    def positions(alt, arm_body, used_in):
+        """indices of the constructor's fields that the pattern binds and `used_in(arm_body)` mentions"""
+        a = alt
+        while a.get("k") in ("Ref", "Box", "Deref") and a.get("pat") is not None:
+            a = a["pat"]
+        out = set()
+        if a.get("k") != "TupleStruct":
+            return out
+        names = {x.get("name") for u in used_in for x in nodes(u, "Path") if x.get("res") == "Local"}
+        for i_, sp_ in enumerate(a["pats"]):
+            if any(b["name"] in names for b in pat_bindings(sp_)):
+                out.add(i_)
+        return out
+    ref_pos = {}
+    for m in matches_on(fn_body(fparts), TY):
+        for arm, alt, vp in arm_alternatives(m):
+            if vp and last(vp) in with_parts:
+                ref_pos[last(vp)] = positions(alt, arm["body"], [arm["body"]])
+        break
+    # reviewed: the pass over an external's declaration leaves the parameters of a function alone on purpose
+    LEFT_OUT = {("outer_statement", "Function", 0): "what an external takes is up to the caller - a callback can be of any purity"}
     n = 0
     for fn in F.fns_in(TC):
         if fn["_path"] == TC + "parts":
@@ -840,6 +862,16 @@ def purity_walks_reach_every_component(F, rep, rule="PURITY-COPY"):
                 stops = [r for r in nodes(arm["body"], "Ret")]
                 if vp and (grows or stops):
                     reached.add(last(vp))
+                if vp and grows and last(vp) in ref_pos:
+                    got = positions(alt, arm["body"], grows)
+                    lacking = sorted(i_ for i_ in ref_pos[last(vp)] - got if (last(fn["_path"]), last(vp), i_) not in LEFT_OUT)
+                    rep.ob(rule, "%s|purity-walk|%s|all-components" % (last(fn["_path"]), last(vp)), not lacking,
+                           "the arm for Type::%s pushes every component parts() lists%s" % (last(vp), " (but the reviewed ones)" if ref_pos[last(vp)] - got else "")
+                           if not lacking else
+                           "the arm for Type::%s in the purity walk of TypeChecker::%s leaves out field %s of the constructor, which parts() "
+                           "lists as a component: a function type there (a callback parameter: `run: pu (fn int -> int) -> int`) keeps an "
+                           "open purity that is not seen - the field is copied per read when its type is known (annotated) and shared when "
+                           "it is not" % (last(vp), last(fn["_path"]), lacking), line_of(arm))
                 if not vp and any(callee(c) == TC + "parts" for c in nodes(arm["body"], "MethodCall")) and grows:
                     generic = True
             missing = sorted(with_parts - reached) if not generic else []
